@@ -18,6 +18,12 @@ StrClasses == {"plain", "quote", "dquote", "bslash", "newline", "percent", "pct_
 OtherClasses == {"int", "bigint", "negint", "float", "decimal", "bool", "none", "date", "datetime", "time"}
 Classes == StrClasses \cup OtherClasses
 Positions == {"values", "where", "inlist", "select", "like"}
+\* "listparam": ONE placeholder bound to a Python list, "v IN (%s)" (client-side styles only; the elements are escaped and quoted
+\* one by one and joined with commas)
+\* The connector's own converter renders the elements of a list with quote(escape(v)) only - it has no list form for Decimal,
+\* date, datetime and time elements (it raises TypeError for them), so those are not "lists for IN" of a supported type.
+ListClasses == StrClasses \cup {"int", "bigint", "negint", "float", "bool", "none"}
+PositionsOf(style, vc) == IF style # "qmark" /\ vc \in ListClasses THEN Positions \cup {"listparam"} ELSE Positions
 
 InitSt == [conn |-> "none", glob |-> "pyformat"]
 
@@ -43,7 +49,8 @@ Ops(st) ==
   [k : {"setglobal"}, style : Styles]
   \cup (IF st.conn = "none" THEN [k : {"connect"}] ELSE {})
   \cup (IF st.conn = "none" THEN {} ELSE
-        UNION {[k : {"bind"}, style : {st.conn}, form : Forms(st.conn), pos : Positions, vc : ClassesUsed \cap Classes, n : {1}, cur : {"same", "fresh"}]
+        UNION {UNION {[k : {"bind"}, style : {st.conn}, form : Forms(st.conn), pos : PositionsOf(st.conn, vc), vc : {vc}, n : {1}, cur : {"same", "fresh"}]
+                      : vc \in ClassesUsed \cap Classes}
                \cup [k : {"bind"}, style : {st.conn}, form : {"many"}, pos : {"values"}, vc : ClassesUsed \cap Classes, n : {3}, cur : {"same"}]})
 
 StepOk(st, op, r) ==
